@@ -114,7 +114,7 @@ class N:
         return list(reversed(out))
 
     def describe(self):
-        return f"{self.kind}{'' if self.name is None else ' @' + self.name}" \
+        return f"{self.kind}{'' if self.name is None else ' ' + show_ref([self.name])}" \
                f"{'' if self.vis is None else ' ' + self.vis} at {self.path()}"
 
 
